@@ -900,12 +900,18 @@ func (r *resolver) refine(target Definition, y *Refine) error {
 	}
 	if y.maxElementsPtr != nil {
 		r.builder.MaxElements(target, *y.maxElementsPtr)
+		// a number replaces the unbounded the grouping may have stated
+		clearMaxElements(target, false, true)
 	}
 	if y.minElementsPtr != nil {
 		r.builder.MinElements(target, *y.minElementsPtr)
 	}
 	if y.unboundedPtr != nil {
 		r.builder.UnBounded(target, *y.unboundedPtr)
+		if *y.unboundedPtr {
+			// and unbounded replaces the number
+			clearMaxElements(target, true, false)
+		}
 	}
 	for _, m := range y.Musts() {
 		h, valid := target.(HasMusts)
@@ -1021,4 +1027,25 @@ func (r *resolver) expandAugment(y *Augment, parent Meta) error {
 	}
 
 	return nil
+}
+
+// clearMaxElements forgets the max-elements number and/or the unbounded flag
+// a list or leaf-list states
+func clearMaxElements(target Definition, number bool, unbounded bool) {
+	switch x := target.(type) {
+	case *List:
+		if number {
+			x.maxElementsPtr = nil
+		}
+		if unbounded {
+			x.unboundedPtr = nil
+		}
+	case *LeafList:
+		if number {
+			x.maxElementsPtr = nil
+		}
+		if unbounded {
+			x.unboundedPtr = nil
+		}
+	}
 }
